@@ -296,7 +296,7 @@ def gen_eq(tier):
     # M-C08-4 sent unsigned dividends to the truncating fallback): floor division in the usual-arithmetic-conversion type
     ref = "auto q = a / b; auto r = a % b; return (r != 0 && ((r < 0) != (b < 0))) ? q - 1 : q;"
     for cfg in ("clang",):
-        for (A, B) in ([(U8, I8), (U16, I32), (U32, I64), (I8, U8), (I32, U16), (I64, U32), (U8, I32), (I16, I64)] if tier == "quick" else [(a, b) for a in ALL64 for b in ALL64 if a is not b and uac(a, b).signed]):
+        for (A, B) in ([(U8, I8), (U16, I32), (U32, I64), (I8, U8), (I32, U16), (I64, U32), (U8, I32), (I16, I64)] if tier == "quick" else [(U8, I8), (U16, I32), (U32, I64), (I8, U8), (I32, U16), (I64, U32), (U8, I32), (I16, I64), (U16, I16), (U8, I64), (I32, I64), (I64, I32), (U32, U64), (U64, U32)]):
             P = uac(A, B)
             WA, WB = ri(A, "neg_inf"), ri(B, "neg_inf")
             for k, pre in enumerate([["b > 0"], ["b < -1"]]):       # the two sign pieces of the divisor: conjunctive pieces fold
